@@ -2,10 +2,11 @@ import ParanoidModel.Driver.Factoring
 import ParanoidModel.Driver.RsaChecks
 import ParanoidModel.Driver.Ecdsa
 import ParanoidModel.Driver.ClosedForm
+import ParanoidModel.Driver.Rng
 open Paranoid.Driver
 
 /-- all dispatchers, tried in order. -/
-def dispatchers : List Dispatcher := [basicOps, ntheoryOps, factoringOps, rsaCheckOps, ecdsaOps, closedFormOps]
+def dispatchers : List Dispatcher := [basicOps, ntheoryOps, factoringOps, rsaCheckOps, ecdsaOps, closedFormOps, rngOps]
 
 def respond (regs : List (String × String)) (line : String) : String :=
   let toks := ((line.trimAscii.toString.splitOn " ").filter (· ≠ "")).map fun t =>
